@@ -663,6 +663,8 @@ var c06Corpus = []c06Witness{
 	{`.`, "\r\n x\xff"}, {`(?s).`, "\r\n"}, {`[^a]`, "\xffa\n"}, {`(?i)s`, "ſS"}, {`(?i)k`, "KK"}, {`\w+`, "aé_9٣"}, {`\s`, " \v\t\f\r\n "},
 	{`.aa`, "aaa"}, {`.aa`, "aaaa"}, {`[^x]aba`, "ababa"}, {`..abab`, "xababab"}, {`.éé`, "ééé"}, {`.\.\.`, "...."}, {`[ab]aa`, "aaab aaa"}, // a self-overlapping literal at a fixed distance: an occurrence too close to the start must not hide the next one
 	{`(A|(?i:a)\.*)`, "xaA"}, {`(?i:a)b|A`, "xaA"}, {`A|[Aa]b`, "ab"}, // Go's parser loses the fold flag when it factors these alternations: the oracle disagrees with itself and the pair is skipped
+	{`\777`, "ÿǿ"}, {`[\400-\777]+`, "Āǿÿ"}, {`\101\x42\x{43}`, "xABC"}, {`\07`, "\a7"}, {`\a\f\t\n\r\v`, "\a\f\t\n\r\v"}, {`\0`, "\x00"}, {`\377`, "ÿ"}, {`\378`, "\x1f8"}, // escapes: an octal escape keeps its value above \377 (fixed in 533e628)
+	{`[[:digit]x]`, "0x] dx]"}, {`[[:foo]x]`, "fx] 0x]"}, {`[a[:digit]+`, "a0:d5"}, {`[[:^alpha]]`, "a] ^] 0]"}, // a POSIX name that is not closed by ":]" is a run of ordinary members (fixed in fde9056)
 	{`(a)(b)?`, "a"}, {`(?i:a)b`, "Ab AB"}, {`日*`, "日日a"}, {`\d+|\D`, "12ab"}, {`é?`, "éé"},
 }
 
